@@ -111,7 +111,7 @@ def runFn (name : String) (v : Value) : Except RunErr Value :=
   | "_sanitizeTrustedResourceURL" => strv (typedOnly [.TrustedResourceURL] v)
   | "_sanitizeTrustedResourceURLOrURL" => strv (typedOr [.TrustedResourceURL, .URL] urlSanitized v)
   | "_sanitizeURL" => strv (typedOr [.URL] urlSanitized v)
-  | "_sanitizeURLSet" => strv (match stringify v with | some s => .ok (urlSetSanitized s) | none => .error .unsupported)
+  | "_sanitizeURLSet" => strv (match stringify v with | some s => .ok (Model.UrlSet.urlSetSanitized s) | none => .error .unsupported)
   | "_sanitizeAsyncEnum" => strv (enumCheck asyncEnumValues v)
   | "_sanitizeDirEnum" => strv (enumCheck dirEnumValues v)
   | "_sanitizeLoadingEnum" => strv (enumCheck loadingEnumValues v)
